@@ -30,7 +30,6 @@ import (
 	"fmt"
 	"io"
 	"os"
-	"runtime/pprof"
 	"strings"
 	"time"
 
@@ -444,11 +443,6 @@ func hugeSection(o *hlib.Out) {
 	}
 	leanDone := map[string]int{}
 	t0 := time.Now()
-	if f := os.Getenv("C07B_PROF"); f != "" {
-		fh, _ := os.Create(f)
-		pprof.StartCPUProfile(fh)
-		defer pprof.StopCPUProfile()
-	}
 	for i := range specs {
 		t1 := time.Now()
 		hugeKey(o, fork(rng, "key"), i, &specs[i], leanDone)
